@@ -8,10 +8,36 @@ import (
 // inclusionProbe: at quiescence every key a (pass-through) L1 serves is served by L2 with the same
 // value and flags.  Looked up on the implementation's backends directly, not through the model.
 func inclusionProbe(sc Scenario, i int, st *Stack, d *Driver, ob StepObs) []Violation {
-	if sc.Stack.Orca != "l1l2" || sc.Stack.L1 != "std" {
+	if sc.Stack.Orca != "l1l2" || (sc.Stack.L1 != "std" && sc.Stack.L1 != "inmem") {
 		return nil
 	}
 	var out []Violation
+	if sc.Stack.L1 == "inmem" {
+		snap := snapshotInmem()
+		var ks []string
+		for k := range snap {
+			ks = append(ks, k)
+		}
+		sortStrings(ks)
+		for _, k := range ks {
+			a := snap[k]
+			b, ok2 := st.L2.Lookup(k)
+			what := ""
+			switch {
+			case !ok2:
+				what = fmt.Sprintf("the in-memory L1 serves key %q which L2 does not hold", k)
+			case !bytes.Equal(a.Data, b.Value):
+				what = fmt.Sprintf("the in-memory L1 and L2 hold different values for key %q", k)
+			case a.Flags != b.Flags:
+				what = fmt.Sprintf("the in-memory L1 and L2 hold different flags for key %q (%d vs %d)", k, a.Flags, b.Flags)
+			}
+			if what != "" {
+				out = append(out, Violation{What: what + fmt.Sprintf(" after step %d", i), Signature: "l1-not-included-in-l2:" + sc.Steps[i].Cmd.Kind,
+					Replay: map[string]interface{}{"step": i, "key": k, "l1": canonN(200, a.Data), "l2": canonN(200, b.Value)}})
+			}
+		}
+		return out
+	}
 	for _, k := range st.L1.Keys() {
 		a, ok := st.L1.Lookup(k)
 		if !ok {
@@ -42,6 +68,7 @@ func init() {
 			per, steps = 100, 45
 		}
 		rep.Rule = "seeded random command sequences on main and batch connections interleaved with losses of random subsets of L1's entries (single keys, triples, everything; for a chunked L1 single metadata or chunk entries) on every stack configuration; every reply is judged by the single-map specification, which knows no evictions (so replies with and without any eviction pattern coincide up to the order of a multi-get's answers); after every command the implementation's L1 is compared with its L2 directly: every key L1 serves must be served by L2 with equal value and flags; reply bytes, backend traces and contents are also compared with the Lean model; distinct = distinct (configuration, sequence) pairs in which a reply carried a value"
-		runSequences(rep, tier, seed+17, per, seqOpts{Steps: steps, MaxChunks: 3, Evict: 0.35, Advance: 0.1, TwoTier: true, Probe: inclusionProbe}, nil)
+		runSequences(rep, tier, seed+17, per, seqOpts{Steps: steps, MaxChunks: 3, Evict: 0.35, Advance: 0.1, TwoTier: true, Probe: inclusionProbe,
+			ExtraCfgs: []StackCfg{{Orca: "l1l2", Locked: "none", Bits: 0, L1: "inmem"}, {Orca: "l1l2", Locked: "mr", Bits: 2, L1: "inmem"}}}, nil)
 	}
 }
